@@ -6,26 +6,44 @@ mod core;
 mod uni;
 mod h;
 mod fref;
+#[cfg(not(feature = "lite"))]
 mod explore;
+#[cfg(not(feature = "lite"))]
 mod c01;
+#[cfg(not(feature = "lite"))]
 mod c02;
+#[cfg(not(feature = "lite"))]
 mod c03;
+#[cfg(not(feature = "lite"))]
 mod c04;
+#[cfg(not(feature = "lite"))]
 mod c05;
+#[cfg(not(feature = "lite"))]
 mod c06;
+#[cfg(not(feature = "lite"))]
 mod c07;
+#[cfg(not(feature = "lite"))]
 mod c08;
+#[cfg(not(feature = "lite"))]
 mod c09;
+#[cfg(not(feature = "lite"))]
 mod c10;
+#[cfg(not(feature = "lite"))]
 mod c11;
+#[cfg(not(feature = "lite"))]
 mod c12;
+#[cfg(not(feature = "lite"))]
 mod c13;
+#[cfg(not(feature = "lite"))]
 mod c14;
 mod c15;
 mod c16;
+#[cfg(not(feature = "lite"))]
 mod c17;
+#[cfg(not(feature = "lite"))]
 mod c18;
 mod c19;
+#[cfg(not(feature = "lite"))]
 mod c20;
 
 #[global_allocator]
@@ -36,7 +54,45 @@ use crate::core::{Ctx, Mode, Tier};
 type CheckFn = fn(&mut Ctx);
 
 fn registry() -> Vec<(&'static str, CheckFn)> {
-    vec![("C01", c01::run as CheckFn), ("C02", c02::run as CheckFn), ("C03", c03::run as CheckFn), ("C04", c04::run as CheckFn), ("C05", c05::run as CheckFn), ("C06", c06::run as CheckFn), ("C07", c07::run as CheckFn), ("C08", c08::run as CheckFn), ("C09", c09::run as CheckFn), ("C10", c10::run as CheckFn), ("C11", c11::run as CheckFn), ("C12", c12::run as CheckFn), ("C13", c13::run as CheckFn), ("C14", c14::run as CheckFn), ("C15", c15::run as CheckFn), ("C16", c16::run as CheckFn), ("C17", c17::run as CheckFn), ("C18", c18::run as CheckFn), ("C19", c19::run as CheckFn), ("C20", c20::run as CheckFn)]
+    let mut v: Vec<(&'static str, CheckFn)> = Vec::new();
+    #[cfg(not(feature = "lite"))]
+    v.push(("C01", c01::run as CheckFn));
+    #[cfg(not(feature = "lite"))]
+    v.push(("C02", c02::run as CheckFn));
+    #[cfg(not(feature = "lite"))]
+    v.push(("C03", c03::run as CheckFn));
+    #[cfg(not(feature = "lite"))]
+    v.push(("C04", c04::run as CheckFn));
+    #[cfg(not(feature = "lite"))]
+    v.push(("C05", c05::run as CheckFn));
+    #[cfg(not(feature = "lite"))]
+    v.push(("C06", c06::run as CheckFn));
+    #[cfg(not(feature = "lite"))]
+    v.push(("C07", c07::run as CheckFn));
+    #[cfg(not(feature = "lite"))]
+    v.push(("C08", c08::run as CheckFn));
+    #[cfg(not(feature = "lite"))]
+    v.push(("C09", c09::run as CheckFn));
+    #[cfg(not(feature = "lite"))]
+    v.push(("C10", c10::run as CheckFn));
+    #[cfg(not(feature = "lite"))]
+    v.push(("C11", c11::run as CheckFn));
+    #[cfg(not(feature = "lite"))]
+    v.push(("C12", c12::run as CheckFn));
+    #[cfg(not(feature = "lite"))]
+    v.push(("C13", c13::run as CheckFn));
+    #[cfg(not(feature = "lite"))]
+    v.push(("C14", c14::run as CheckFn));
+    v.push(("C15", c15::run as CheckFn));
+    v.push(("C16", c16::run as CheckFn));
+    #[cfg(not(feature = "lite"))]
+    v.push(("C17", c17::run as CheckFn));
+    #[cfg(not(feature = "lite"))]
+    v.push(("C18", c18::run as CheckFn));
+    v.push(("C19", c19::run as CheckFn));
+    #[cfg(not(feature = "lite"))]
+    v.push(("C20", c20::run as CheckFn));
+    v
 }
 
 fn usage() -> ! {
@@ -117,7 +173,12 @@ fn main() {
     }
     core::install_panic_hook();
     let mut ctx = Ctx::new(prop, tier, seed, mode);
-    f(&mut ctx);
+    if let Err(msg) = core::guard(|| f(&mut ctx)) {
+        // a panic outside any case (universe construction, harness bug): never a verdict
+        eprintln!("MACHINERY: the check itself panicked outside a case: {}", msg);
+        println!("MACHINERY: the check itself panicked outside a case: {}", msg);
+        std::process::exit(2);
+    }
     let code = ctx.finish();
     std::process::exit(code);
 }
